@@ -282,7 +282,8 @@ def judge_helper(ctx, name, ps, ws, style, impl, model_line_out, numpy_in):
             if got != SENTINEL:
                 ctx.violation("avg-sentinel", "%s returned %r although no valid percentage carries weight (expected the sentinel 9.37e36)" % (name, got), case)
         else:
-            scale = max(1.0, abs(float(lo)), abs(float(hi)))
+            # 1 - rejected_weight carries an absolute rounding error of a few 1e-16, i.e. a relative one of that / valid weight
+            scale = max(1.0, abs(float(lo)), abs(float(hi))) * (1 + 1e-6 / float(vw))
             if not (float(lo) - 1e-9 * scale <= got <= float(hi) + 1e-9 * scale):
                 ctx.violation("avg-range", "%s returned %r outside the range [%r, %r] of the valid percentages" % (name, got, float(lo), float(hi)), case)
             elif abs(got - float(mean)) > 1e-9 * scale:
@@ -309,6 +310,10 @@ CORPUS_W = [
     ([5.0, 1e11], [0.0, 1.0]), ([5.0, 1e11], [1.0, 0.0]), ([1e11, 1e12], [0.5, 0.5]),
     ([1.0, 2.0], [0.5, 0.5, 0.0]), ([1.0, 2.0], [1.5, -0.5]), ([1.0, 2.0], [0.3, 0.3]), ([], []),
     ([-100.0, -100.0, -100.0], [0.3, 0.3, 0.4]),  # the source of -1.0000000000000002 in the shipped table
+    # fixed defect (commit 214cd12): valid entry with weight 0, rejected weights summing to 0.9999999999999999 -> raised AssertionError
+    ([3.0, 1e26, -1e9, 1e11], [0.0, 0.6, 0.3, 0.1]),
+    ([3.0, 1e26, -1e9, 1e11], [0.0, 0.3, 0.3, 0.4]),
+    ([3.0, 1e26, -1000000000.0, -1.0496787285722855e27], [0.0, 0.13517336278667402, 0.6620665930333148, 0.20276004418001103]),
 ]
 CORPUS_E = [[1, 2, 3], [1e11, -101, 1e8, 1e26], [-100, 3, 100, 0, 0, -16, 8, 8, 1e11], [7.0], [1e11], [-100, 1e5, -100.5], []]
 
